@@ -967,7 +967,7 @@ func (ev *cenv) call(e *CExpr) *Val {
 				return x
 			}
 			return &Val{T: T, S: x.S, Sort: x.Sort}
-		case "iter_calls", "iter_arg", "iter_ret", "iter_atcall":
+		case "iter_calls", "iter_arg", "iter_ret", "iter_atcall", "iter_callpos":
 			// the call log of the current loop iteration only
 			start := 0
 			if ev.st != nil && ev.st.loopLog != nil {
@@ -977,14 +977,22 @@ func (ev *cenv) call(e *CExpr) *Val {
 			}
 			label := args[0].String()
 			var evs []CallEvent
+			var poss []int
 			if ev.st != nil {
 				for pi, c := range ev.st.log {
 					if pi >= start && (c.Label == label || strings.HasSuffix(c.Label, "."+label)) {
 						evs = append(evs, c)
+						poss = append(poss, pi)
 					}
 				}
 			}
 			switch fn.Name {
+			case "iter_callpos":
+				k := ev.constInt(args[1])
+				if k >= len(poss) {
+					return intVal("(- 1)")
+				}
+				return intVal(intLit(int64(poss[k])))
 			case "iter_atcall":
 				k := ev.constInt(args[1])
 				if k >= len(evs) {
@@ -1076,6 +1084,22 @@ func (ev *cenv) call(e *CExpr) *Val {
 			sub := *ev
 			sub.heap = evs[k].Heap
 			return sub.eval(args[2])
+		case "atomicwas":
+			// atomicwas(loc, v): the atomic variable at loc holds or has held the value v (timeless,
+			// only ever asserted positively: by a Store/Swap of v, or by a Load that returned v;
+			// the zero value counts as held from the start).
+			lv := ev.evalLV(args[0])
+			v := ev.eval(args[1])
+			vs := v.S
+			if v.Sort == SBool {
+				vs = sx("ite", v.S, "1", "0")
+			}
+			E.declare("|atomic!was|", "(Int Int Int) Bool")
+			pk := namedKey(lv.Root)
+			for _, st := range lv.Path {
+				pk += fmt.Sprintf(".%d", st.Field)
+			}
+			return boolVal(sx("|atomic!was|", lv.Ref, intLit(int64(E.typeID2(pk))), vs))
 		case "held", "rheld", "closed", "chancap":
 			return ev.concPred(fn.Name, args)
 		case "string":
@@ -1330,7 +1354,7 @@ func usesCallLog(e *CExpr) bool {
 	}
 	if e.Op == "call" && e.Args[0].Op == "ident" {
 		switch e.Args[0].Name {
-		case "calls", "arg", "ret", "atcall", "aftercall", "callpos", "atlock", "atunlock", "visited", "lastret", "lastarg", "lastpos", "iter_calls", "iter_arg", "iter_ret", "iter_atcall":
+		case "calls", "arg", "ret", "atcall", "aftercall", "callpos", "atlock", "atunlock", "visited", "lastret", "lastarg", "lastpos", "iter_calls", "iter_arg", "iter_ret", "iter_atcall", "iter_callpos":
 			return true
 		}
 	}
